@@ -245,12 +245,38 @@ def rel_chains(seed, n, steps=None, maxvars=3, k=1):
     the stabilisation bound of the chain (chain_bound) unless given."""
     rng = random.Random(seed)
     out = []
-    for _ in range(n):
-        thr = k == 1 and rng.random() < 0.3      # with ghost dimensions the threshold bound exceeds any practical length
-        nv = rng.randint(1, 2 if thr else maxvars)
+    for ci in range(n):
+        thr = ci >= 2 and k == 1 and rng.random() < 0.3      # with ghost dimensions the threshold bound exceeds any practical length
+        nv = rng.randint(1, 2 if thr else maxvars) if ci >= 2 else 2
         ths = sorted(set(rng.choice([-100, -10, 10, 50, 1000]) for _ in range(rng.randint(1, 2)))) if thr else []
         nsteps = steps or (3 * chain_bound(nv, len(ths), k) + 10)
         ops = []
+        if not thr and nv >= 2 and (ci < 2 or rng.random() < 0.3):
+            # staircase: the iterates keep |v_a - v_b| <= d while the two upper (or lower) bounds are
+            # raised in turn; a widening that re-derives a dropped bound from the kept relation and
+            # the other bound (e.g. by closing its left argument) never stabilises on it
+            a, b = rng.sample(range(nv), 2); d = rng.choice([1, 1, 2]); base = rng.randint(-3, 3); up = (rng.random() < 0.7) if ci >= 2 else (ci == 0)
+            # the relation first, the bounds last: the difference constraints stay explicit edges
+            ops.append("assume 0 2 C le E 2 1 %d -1 %d %d C le E 2 -1 %d 1 %d %d" % (a, b, -d, a, b, -d))
+            for v in range(nv):
+                ops.append("assume 0 2 C le E 1 -1 %d %d C le E 1 1 %d %d" % (v, base, v, -base))
+            for i in range(nsteps):
+                # Y_i: both bounds at base + i (the first one raises only v_a): under a widening that
+                # re-derives the dropped bound as (other bound + d) exactly one bound is unstable per step
+                ha, hb = (1, 0) if i == 0 else (i, i)
+                ops.append("top 1")
+                ops.append("assume 1 2 C le E 2 1 %d -1 %d %d C le E 2 -1 %d 1 %d %d" % (a, b, -d, a, b, -d))
+                for v, h in ((a, ha), (b, hb)):
+                    lo, hi = (base, base + h) if up else (base - h, base)
+                    ops.append("assume 1 2 C le E 1 -1 %d %d C le E 1 1 %d %d" % (v, lo, v, -hi))
+                for v in range(nv):
+                    if v not in (a, b):
+                        ops.append("assume 1 1 C eq E 1 1 %d %d" % (v, -base))
+                # queries on a copy: the chain value is only ever an argument of the widening, as in the engine
+                ops.append("copy 2 0"); ops.append("widen 0 0 1"); ops.append("copy 3 0")
+                ops.append("q_leq 3 2"); ops.append("q_csts 3"); ops.append("q_leq 1 3")
+            out.append("hist 4 %d ; %s" % (nv, " ; ".join(ops)))
+            continue
         for v in range(nv):
             ops.append("assign 0 %d E 0 %d" % (v, rng.randint(-5, 5)))
         for _ in range(nsteps):
@@ -326,13 +352,15 @@ def rel_chain_oracle(line, ans, rng=None, k=1, sound=True, complete_leq=False):
         a = answers[i]
         if o.startswith("widen"):
             cur = [a]
+        elif o == "copy 3 0" and cur is not None:
+            pass        # the queries are made on a copy (register 3): the chain value itself is not touched
         elif not o.startswith("q_"):
             cur = None
-        elif o == "q_leq 0 2" and cur is not None and len(cur) == 1:
+        elif o in ("q_leq 0 2", "q_leq 3 2") and cur is not None and len(cur) == 1:
             cur.append(a)
-        elif o == "q_csts 0" and cur is not None and len(cur) == 2:
+        elif o in ("q_csts 0", "q_csts 3") and cur is not None and len(cur) == 2:
             cur.append(",".join(sorted(a[1:-1].split(","))))
-        elif o == "q_leq 1 0" and cur is not None and len(cur) == 3:
+        elif o in ("q_leq 1 0", "q_leq 1 3") and cur is not None and len(cur) == 3:
             steps += 1
             if a == "false" and complete_leq:
                 return "step %d (q_leq 1 0) of: %s: the second argument of a widening is not included in its result" % (i + 1, line)
@@ -539,6 +567,9 @@ BOOL_CORPUS = [
     # negation of a constraint that is only implied by the result of select_bool (bool-7)
     "hist 2 2 4 ; bassign 0 0 C le E 1 1 0 0 ; bforget 0 1 ; bassign 0 3 C lt E 0 0 ; bselect 0 2 0 1 3 ; bcopy 0 3 2 1 ; bassume 0 3 0 ; q_bat 0 2",
     "hist 2 2 4 ; bassign 0 0 C le E 1 1 0 0 ; bforget 0 1 ; bassign 0 3 C lt E 0 0 ; bselect 0 2 0 3 1 ; bcopy 0 3 2 1 ; bassume 0 3 0 ; q_bat 0 2",
+    # select_bool with lhs = cond reads the new value of cond (bool-8)
+    "hist 2 2 3 ; bassign 0 0 C lt E 0 0 ; bassign 0 1 C le E 1 1 0 0 ; bassign 0 2 C le E 0 0 ; bselect 0 0 0 1 2 ; bassume 0 0 0 ; q_bat 0 1",
+    "hist 4 3 3 ; assign 0 0 E 0 -1 ; assign 0 1 E 0 -1 ; assume 0 1 C le E 1 -1 2 0 ; bassign 0 0 C le E 2 1 0 -1 2 -1 ; bassign 0 2 C lt E 1 -1 1 3 ; bselect 0 0 0 2 0 ; bcopy 0 1 0 1 ; bassume 0 1 0",
     # numerical domains: boolean assignments are no-ops, b := trunc(v) is not
     "hist 2 2 ; assign 0 0 E 0 1 ; bfromint 0 0 0 ; bassign 0 0 C le E 1 1 1 0 ; q_bat 0 0 ; cast 0 zext 1 2 ; q_at 0",
     "hist 2 2 ; cast 0 zext 0 2 ; bcopy 0 0 0 1 ; cast 0 zext 1 2 ; q_csts 0",
